@@ -7,11 +7,11 @@ FAMILIES = {}   # pool, strpool and stream are declared by their own plug-ins; `
 
 PROPS = {
     "C19": dict(
-        families=["pool", "strpool"],
+        families=["pool", "strpool", "stream"],
         family="pool",
         theorems=T("C19", "fault_safe", "fault_safe_destructible", "fault_safe_usable", "fault_only_when_scheduled", "throw_only_bad_alloc",
                    "fault_safe_reachable", "asFound_allocate_badFree", "asFound_allocate_doubleFree", "asFound_assignCopy_useAfterFree"),
-        slices_by_family={"pool": {"quick": 32, "thorough": 64}, "strpool": {"quick": 16, "thorough": 32}},
+        slices_by_family={"pool": {"quick": 32, "thorough": 64}, "strpool": {"quick": 16, "thorough": 32}, "stream": {"quick": 16, "thorough": 32}},
         rule="buffer level (family pool): for two (quick) / four (thorough) element types, every target size class x every source size class (6x6), after 2 / 5 kinds "
              "of prefix, every operation of a 37-entry menu with its allocation failing (a buffer member allocates at most once) and with the next one failing (control), "
              "plus seeded random histories followed by a random operation with its allocation failing. String level (family strpool): every allocating ST::string "
@@ -19,7 +19,10 @@ PROPS = {
              "substr/left/right/trim/replace/before/after/case mapping, conversions, hex/base64, format, split/tokenize, string_stream) x target size class x argument "
              "size class; for each line the harness counts the allocations n of the clean run and re-runs the operation from the same rebuilt pre-state with the k-th "
              "allocation throwing, k = 1..n (only allocations made inside the library call are counted: the fault counter is armed after the harness built the "
-             "arguments); after each: snapshot of every live object, then every object is destroyed; ASan + block accounting + LSan. non-trivial = at least one fault fired",
+             "arguments); after each: snapshot of every live object, then every object is destroyed; ASan + block accounting + LSan. Stream level (family stream): histories "
+             "of string_stream operations followed by an operation (append of every form, every operator<< overload, moves) whose k-th allocation fails, in both storage "
+             "modes and at every doubling boundary; the stream must hold its previous bytes, every other stream is untouched, destroying everything is clean. "
+             "non-trivial = at least one fault fired",
         exhaustive={"quick": False, "thorough": False},
         partial="the theorems cover every ST::buffer<T> member and every fault position (the storage layer every string operation goes through); for ST::string "
                 "operations the statement is decided on the code by the fault-injection correspondence (exact model comparison for the buffer-only operations, the "
